@@ -33,4 +33,8 @@ SCENARIOS = [
     sc(4, 6, ("thorough",)),
     sc(3, 9, ("thorough",)),
     sc(4, 9, ("thorough",)),
+    dict(name="C14 throw-event counterpart n=2 L=4", entry="VerifC14_Throw2_L4", harness="logic", K=22, reach=["end"],
+         expect_obligations=EO[:2], bounds="ThrowEventSatisfier, 2 definitions, all histories of length 4"),
+    dict(name="C14 throw-event counterpart n=3 L=5", entry="VerifC14_Throw3_L5", harness="logic", K=25, reach=["end"], tiers=("thorough",),
+         expect_obligations=EO[:2], bounds="ThrowEventSatisfier, 3 definitions, all histories of length 5"),
 ]
